@@ -15,7 +15,16 @@ LEVEL_TEXT = ("Theorems for all inputs about the Lean model of ShapeConnectionPi
               "users). The routing itself is not modelled: every route the real library returns along random "
               "histories of shape moves/resizes is checked by Lean checkers with soundness theorems "
               "(point-on-segment, checkpoints-in-order, permitted leg direction), and pin positions/directions/"
-              "default exclusivity reported by the C++ are compared exactly with the model after every transaction.")
+              "default exclusivity reported by the C++ are compared exactly with the model after every transaction. "
+              "Checkpoint routing: the per-leg visibility-direction protocol of ConnRef::generateCheckpointsPath (restrict the start "
+              "vertex by the departure mask of the last reached checkpoint, the end vertex by the arrival mask of the checkpoint the leg "
+              "goes to, search, restore both; VertInf::setVisibleDirections, directionFrom) is modelled for all graphs, checkpoint lists, "
+              "masks and ALL search outcomes (Model/CheckpointLegs.lean); Props/C11Legs proves that the function returns the graph it "
+              "was entered with (no vertex left restricted), that over any history no edge is disabled between two searches, and exactly "
+              "which edges each leg's search sees disabled. Tie: EdgeInf::isDisabled of every visibility edge of every checkpoint vertex, "
+              "and of the whole router after every transaction and at every progress callback inside it (Router subclass), is compared "
+              "with the model run on the same edges and masks; setVisibleDirections is probed directly on real vertices; the first and "
+              "last edge of every leg of route() must be enabled in the graph the model says that leg's search saw.")
 LEVEL_NOTE = ("Only sampled histories tie the theorems to the C++ (no statement about all runs of libavoid). "
               "Which pin a connector holds is not observable without the optional hook H2 (m_connend_users is "
               "private): exclusivity is decided from positions (ends of a (shape,class) group at one position vs "
@@ -32,7 +41,15 @@ LEVEL_NOTE = ("Only sampled histories tie the theorems to the C++ (no statement 
               "-DUSE_ASSERT_EXCEPTIONS: seen are vs[..]->id != freeSegmentID in nudgeOrthogonalRoutes and "
               "orthogonalDirectionsCount(thisDirs) > 0 in makepath.cpp) and become SPECFAIL only when known_findings.json names the class "
               "(ids C11-lib-assert, C11-cp-disp, C11-hyper-disp, C11-nudge-dir, C11-no-path, C11-border0, C11-cp-junction, "
-              "C11-del-attached) - see the C11 report.")
+              "C11-del-attached) - see the C11 report. "
+              "Checkpoints with restricted arrival/departure masks: the leg-by-leg search is greedy (a leg does not know the departure mask of the "
+              "checkpoint it goes to), so such a checkpoint can be reached the wrong way round and the next leg fails (checkpoint skipped / route "
+              "stops at it) although the masks are satisfiable - finding class cp-dirs (id C11-cp-dirs; counted in stats finding.cp-dirs, SPECFAIL "
+              "once listed). A failure of that kind on a graph where edges of the connector's checkpoint vertices were still disabled from an earlier "
+              "search (seen after the previous transaction for polyline edges, or after this one when the crossing stage can search twice) is outside "
+              "every class: plain SPECFAIL 'cp-restricted'. The search itself (A*) is not modelled: the protocol theorems hold for every search function; "
+              "that the search skips disabled edges is what the leg-edge tie checks. Which legs were skipped is read from the library's own diagnostic "
+              "('skipping checkpoint', captured from the C stream stderr per transaction); connectors with such a diagnostic are exempt from the leg-edge tie.")
 TECHNIQUE = "Lean 4 theorems (pin position model, assignment state machine, checker soundness) + correspondence harness over move/resize histories"
 RULE = ("random scenes: 2-4 rectangles in own grid cells with 1-5 pins each (proportional/absolute, all sentinels, "
         "inside offsets, masks 0..15, exclusive default/forced, costs), 0-2 junctions, 1-6 connectors (pin/junction/"
@@ -41,9 +58,15 @@ RULE = ("random scenes: 2-4 rectangles in own grid cells with 1-5 pins each (pro
         "exclusivity toggles, moves/resizes of shapes (pins already added) and junctions in the same transaction as their creation "
         "(at set-up before the first processTransaction and for a shape / junction added later in the history, each with a connector "
         "attached), re-targeting of a connector end (setSourceEndpoint/setDestEndpoint to another pin class, "
-        "a junction or a free point) in the same transaction as moves of the old and/or new object. A case is non-trivial if at least one pin-attached end was checked after a move/resize.")
+        "a junction or a free point) in the same transaction as moves of the old and/or new object. Second stream (generator class cpdirs, 300 / 2000 cases): "
+        "80% of connectors carry 1-3 checkpoints with (arrival, departure) masks drawn from all 15 x 15 combinations (35% (All, restricted), 15% (restricted, All), "
+        "35% both restricted), half of the ends are free points, crossingPenalty in {0,50,200,400} and fixedSharedPathPenalty in {0,110} (second search inside the "
+        "transaction), histories drag free ends of checkpoint connectors (later search over persisting polyline edges); polyline-only scenes are sparse in half of the "
+        "cases (1-2 shapes, no sentinels). A case is non-trivial if at least one pin-attached end was checked after a move/resize.")
 TRUSTED_BASE = ["Lean 4.33 kernel", "axioms: propext, Classical.choice, Quot.sound", "Lean compiler for the driver",
-                "harness/c11.cpp generator + hex-float import", "IEEE exactness of +,-,* on small dyadic data"]
+                "harness/c11.cpp generator + hex-float import", "IEEE exactness of +,-,* on small dyadic data",
+                "AStarPath reads the visibility graph only through EdgeInf::isDisabled (not modelled; checked on the first/last edge of every leg)",
+                "glibc: the C stream variable stderr is assignable (capture of the library's skip diagnostics)"]
 ASSUMPTIONS = ["inputs are dyadic rationals k/16 with |k| < 2^20 so that position() is computed exactly",
                "rectangular, pairwise disjoint shapes; every pin class referenced by a connector exists"]
 
